@@ -594,3 +594,18 @@ crate::harnesses! {
     #[kani::stub(std::string::ToString::to_string, stub_to_string)]
     c13_vec_writer_u128_l3p3_owned (thorough, "MemWordWriterVec<u128>, owned Vec, len=3, cursor=3 (concrete)", "symbolic contents, any op, any seek target, any written word") => vec_writer_step::<u128, _, 3, 3, true>;
 }
+
+/// core's memchr is a word-at-a-time search behind `align_offset`, which symbolic execution cannot resolve for
+/// texts of 16 bytes or more (> 600 s, > 10 GB for a concrete 16-byte text); replaced by its definition
+/// (index of the first occurrence). Native replays run the real one.
+#[cfg(kani)]
+pub fn stub_memchr(x: u8, text: &[u8]) -> Option<usize> {
+    let mut i = 0;
+    while i < text.len() {
+        if text[i] == x {
+            return Some(i);
+        }
+        i += 1;
+    }
+    None
+}
